@@ -1,12 +1,5 @@
-mod gen;
-mod props;
-mod runner;
-mod sched;
-mod sim;
-mod svc;
-mod vclock;
-
-use runner::{drive, Opts, Tier};
+use vcheck::runner::{self, drive, Opts, Tier};
+use vcheck::{props, sim};
 
 fn usage() -> ! {
     eprintln!("usage: vcheck <C01..C20> [--tier quick|thorough] [--replay FILE] [--cases N] [--threads N] [--verif-dir DIR]");
